@@ -225,12 +225,31 @@ def run(ck):
     ok = any(isinstance(n, ast.If) and norm(n.test) in ("node == %s" % hp, "%s == node" % hp, "node is %s" % hp) and any(isinstance(x, ast.Continue) for x in n.body)
              for n in wl.body)
     ck.ob("R4", "dominators:head-fixed", ok, m.where(wl), "the head's dominator set is recomputed in the fix point (a head with predecessors loses itself as only dominator)")
-    full = any(isinstance(n, ast.For) and any(isinstance(a, ast.Assign) and norm(a.targets[0]).startswith("dominators[") and norm(a.value) in ("set(nodes)", "nodes.copy()", "set(nodes.copy())")
-                                              for a in n.body) for n in fn.body)
+    FULL = ("set(nodes)", "nodes.copy()", "set(nodes.copy())")
+    full = any(isinstance(n, ast.For) and any(isinstance(a, ast.Assign) and norm(a.targets[0]).startswith("dominators[") and norm(a.value) in FULL
+                                              for a in n.body) for n in fn.body) or \
+        any(isinstance(n, ast.Assign) and norm(n.targets[0]) == "dominators" and isinstance(n.value, ast.DictComp) and len(n.value.generators) == 1
+            and norm(n.value.generators[0].iter) == "nodes" and not n.value.generators[0].ifs and norm(n.value.key) == norm(n.value.generators[0].target)
+            and norm(n.value.value) in FULL for n in fn.body)
     ck.ob("R4", "dominators:top-init", full, m.where(fn), "every node must start with the full node set (greatest fix point)")
+    from sa.astutil import Resolver as _Res0
+    _r0 = _Res0(fn)
     inner = [n for n in wl.body if isinstance(n, ast.For) and norm(n.iter) == "%s(node)" % pp]
     ok = bool(inner) and any(isinstance(c, ast.Call) and isinstance(c.func, ast.Attribute) and c.func.attr == "intersection_update" for c in walk_local(inner[0])) and \
         any(isinstance(t, ast.If) and "nodes" in norm(t.test) and any(isinstance(x, ast.Continue) for x in t.body) for t in inner[0].body)
+    if not ok:
+        # the same meet written as one intersection over a filtered comprehension: set.intersection(*[dominators[p] for p in prev(node) if p in nodes])
+        for c in walk_local(ast.Module(body=wl.body, type_ignores=[])):
+            if isinstance(c, ast.Call) and isinstance(c.func, ast.Attribute) and c.func.attr == "intersection" and c.args and isinstance(c.args[0], ast.Starred):
+                seq = c.args[0].value
+                if isinstance(seq, ast.Name) and _r0.unique_def(seq.id) is not None:
+                    seq = _r0.unique_def(seq.id)
+                if isinstance(seq, (ast.ListComp, ast.GeneratorExp)) and len(seq.generators) == 1:
+                    g = seq.generators[0]
+                    t_ = norm(g.target)
+                    if norm(g.iter) == "%s(node)" % pp and norm(seq.elt) == "dominators[%s]" % t_ and \
+                            any(norm(f_) == "%s in nodes" % t_ for f_ in g.ifs) and len(g.ifs) == 1:
+                        ok = True
     ck.ob("R4", "dominators:meet-over-region-predecessors", ok, m.where(wl),
           "the new set must be the intersection over the predecessors that belong to the reachable region")
     ok = any(isinstance(c, ast.Call) and isinstance(c.func, ast.Attribute) and c.func.attr in ("update", "add") and dotted(c.func.value) == "new_dom" and "node" in norm(c)
